@@ -264,10 +264,13 @@ def coq_requires(relpath, seen=None):
     except FileNotFoundError:
         return seen
     src = re.sub(r'\(\*.*?\*\)', '', src, flags=re.S)
-    for m in re.finditer(r'Require\s+(?:Import|Export)?\s*([^.]*(?:\.[A-Za-z_][^.\s]*)*)\s*\.(?:\s|$)', src):
-        for name in m.group(1).split():
-            if name.startswith('V.'):
-                coq_requires(name[2:].replace('.', '/') + '.v', seen)
+    name = r"[A-Za-z_][\w']*(?:\.[A-Za-z_][\w']*)*"
+    for m in re.finditer(r'(?:From\s+(' + name + r')\s+)?Require\s+(?:Import\s+|Export\s+)?((?:' + name + r'\s*)+)\.(?=\s|$)', src):
+        prefix = m.group(1)
+        for nm in m.group(2).split():
+            full = (prefix + '.' + nm) if prefix else nm
+            if full.startswith('V.'):
+                coq_requires(full[2:].replace('.', '/') + '.v', seen)
     return seen
 
 
